@@ -937,6 +937,97 @@ std::string Generator::GeneratorImpl::generateVariableNameCode(const VariablePtr
     return arrayName + mProfile->openArrayString() + convertToString(analyserVariable->index()) + mProfile->closeArrayString();
 }
 
+/**
+ * Precedence with which the code generated for the given AST binds when it is used as an operand: the higher the
+ * tighter, and 0 for code that is atomic (a number, a variable, a function call). This is the safety net behind the
+ * hand-written parenthesisation rules of generateOperatorCode(): an operand that binds less tightly than the operator
+ * it is an operand of must be parenthesised, whatever the rules say.
+ */
+int Generator::GeneratorImpl::codePrecedence(const AnalyserEquationAstPtr &ast) const
+{
+    if (ast == nullptr) {
+        return 0;
+    }
+
+    switch (ast->type()) {
+    case AnalyserEquationAst::Type::PIECEWISE:
+        return isPiecewiseStatement(ast) ? 1 : 0;
+    case AnalyserEquationAst::Type::OR:
+        return isOrOperator(ast) ? 2 : 0;
+    case AnalyserEquationAst::Type::AND:
+        return isAndOperator(ast) ? 3 : 0;
+    case AnalyserEquationAst::Type::XOR:
+        return isXorOperator(ast) ? 4 : 0;
+    case AnalyserEquationAst::Type::EQ:
+    case AnalyserEquationAst::Type::NEQ:
+        return isRelationalOperator(ast) ? 5 : 0;
+    case AnalyserEquationAst::Type::LT:
+    case AnalyserEquationAst::Type::LEQ:
+    case AnalyserEquationAst::Type::GT:
+    case AnalyserEquationAst::Type::GEQ:
+        return isRelationalOperator(ast) ? 6 : 0;
+    case AnalyserEquationAst::Type::PLUS:
+        return (ast->rightChild() != nullptr) ? 7 : codePrecedence(ast->leftChild());
+    case AnalyserEquationAst::Type::MINUS:
+        if (ast->rightChild() != nullptr) {
+            return 7;
+        }
+
+        // A unary minus is written in front of a product or quotient without parentheses, so "-a*b" still binds
+        // like a product.
+
+        return (codePrecedence(ast->leftChild()) == 8) ? 8 : 9;
+    case AnalyserEquationAst::Type::TIMES:
+    case AnalyserEquationAst::Type::DIVIDE:
+        return 8;
+    case AnalyserEquationAst::Type::NOT:
+        return mProfile->hasNotOperator() ? 9 : 0;
+    case AnalyserEquationAst::Type::LOG:
+        if (ast->rightChild() != nullptr) {
+            // A logarithm with a base other than 10 is generated as a quotient of two logarithms.
+
+            double doubleValue;
+
+            if (!(convertToDouble(generateCode(ast->leftChild()), doubleValue)
+                  && areEqual(doubleValue, 10.0))) {
+                return 8;
+            }
+        }
+
+        return 0;
+    default:
+        return 0;
+    }
+}
+
+static bool isEnclosedInParentheses(const std::string &code)
+{
+    if ((code.size() < 2) || (code.front() != '(') || (code.back() != ')')) {
+        return false;
+    }
+
+    size_t depth = 0;
+
+    for (size_t i = 0; i < code.size(); ++i) {
+        if (code[i] == '(') {
+            ++depth;
+        } else if (code[i] == ')') {
+            --depth;
+
+            if ((depth == 0) && (i != code.size() - 1)) {
+                return false;
+            }
+        }
+    }
+
+    return true;
+}
+
+std::string Generator::GeneratorImpl::parenthesisedIfNeeded(const std::string &code, bool needed) const
+{
+    return (needed && !isEnclosedInParentheses(code)) ? "(" + code + ")" : code;
+}
+
 std::string Generator::GeneratorImpl::generateOperatorCode(const std::string &op,
                                                            const AnalyserEquationAstPtr &ast) const
 {
@@ -1214,6 +1305,20 @@ std::string Generator::GeneratorImpl::generateOperatorCode(const std::string &op
         return astRightChildCode + op + "(1.0/" + astLeftChildCode + ")";
     }
 
+    // Safety net: whatever the rules above decided, an operand that binds less tightly than this operator (or as
+    // tightly, on the right of an operator that is not associative) must be parenthesised.
+
+    auto precedence = codePrecedence(ast);
+
+    if (precedence > 0) {
+        auto leftPrecedence = codePrecedence(astLeftChild);
+        auto rightPrecedence = codePrecedence(astRightChild);
+        auto associative = isPlusOperator(ast) || isTimesOperator(ast) || isAndOperator(ast) || isOrOperator(ast) || isXorOperator(ast);
+
+        astLeftChildCode = parenthesisedIfNeeded(astLeftChildCode, (leftPrecedence > 0) && (leftPrecedence < precedence));
+        astRightChildCode = parenthesisedIfNeeded(astRightChildCode, (rightPrecedence > 0) && ((rightPrecedence < precedence) || ((rightPrecedence == precedence) && !associative)));
+    }
+
     return astLeftChildCode + op + astRightChildCode;
 }
 
@@ -1233,6 +1338,12 @@ std::string Generator::GeneratorImpl::generateMinusUnaryCode(const AnalyserEquat
         || isPiecewiseStatement(astLeftChild)) {
         code = "(" + code + ")";
     }
+
+    auto precedence = codePrecedence(astLeftChild);
+
+    // Note: "--a" is a decrement in C, hence a minus sign is never written directly in front of another one.
+
+    code = parenthesisedIfNeeded(code, ((precedence > 0) && (precedence < 8)) || (code.rfind(mProfile->minusString(), 0) == 0));
 
     return mProfile->minusString() + code;
 }
@@ -1357,7 +1468,9 @@ std::string Generator::GeneratorImpl::generateCode(const AnalyserEquationAstPtr 
         break;
     case AnalyserEquationAst::Type::NOT:
         if (mProfile->hasNotOperator()) {
-            code = mProfile->notString() + generateCode(ast->leftChild());
+            auto precedence = codePrecedence(ast->leftChild());
+
+            code = mProfile->notString() + parenthesisedIfNeeded(generateCode(ast->leftChild()), (precedence > 0) && (precedence < 9));
         } else {
             code = generateOneParameterFunctionCode(mProfile->notString(), ast);
         }
